@@ -9,9 +9,9 @@ ID = 'C09'
 LEAN_MODULE = 'PncProofs.C09'
 LEAN_FILE = 'PncProofs/C09.lean'
 NAMESPACE = 'Props.C09'
-LEAN_CONE = ['PncModel.Words', 'PncModel.Camx.Uamiv', 'PncProofs.WordsLemmas', 'PncProofs.C09']
-LEMMA_FILES = ['PncProofs/WordsLemmas.lean']
-REQUIRED_THEOREMS = []
+LEAN_CONE = ['PncModel.Words', 'PncModel.Camx.Uamiv', 'PncProofs.WordsLemmas', 'PncProofs.UamivLemmas', 'PncProofs.C09']
+LEMMA_FILES = ['PncProofs/WordsLemmas.lean', 'PncProofs/UamivLemmas.lean']
+REQUIRED_THEOREMS = ['tiles', 'header_counts', 'refDecode_encode']
 RULE = ('uamiv files (all four NAME variants, 1-3 species with names up to 10 characters, nx, ny 1-4, nz 1-3, '
         '1-3 steps, begin/end flags with and without ETFLAG, any finite float32 payload incl. denormals and -0): '
         'kind write = library writer bytes vs the Lean encoder and an independent python record walker; kind '
